@@ -36,7 +36,7 @@ func (s *verifSolver) Inverse(a ELEMTYPE) (ELEMTYPE, bool) {
 func (s *verifSolver) One() ELEMTYPE                 { return verifFConst(1) }
 func (s *verifSolver) IsOne(a ELEMTYPE) bool         { return verifFEq(a, verifFConst(1)) }
 func (s *verifSolver) String(ELEMTYPE) string        { return "<e>" }
-func (s *verifSolver) Uint64(ELEMTYPE) (uint64, bool) { panic("unused") }
+func (s *verifSolver) Uint64(a ELEMTYPE) (uint64, bool) { return verifFToU64(a) }
 func (s *verifSolver) GetValue(cID, vID uint32) ELEMTYPE {
 	// contract of the real solvers' computeTerm (checked by the R1CS-side harness)
 	if cID != 0 && !s.solved[vID] {
